@@ -526,12 +526,13 @@ Fixpoint place_files (pol : Z) (limit : option Z) (fvbuf : bytes) (off : Z) (fil
 
 Definition asm_vol (pol : Z) (ffs3 : bool) (h : volhdr) (buf : bytes) (files : list node)
   : outcome (volhdr * bytes) :=
-  match files with
-  | [] => Ok (h, buf)
-  | _ =>
+  (* a volume of a file system fiano does not parse is emitted verbatim; an FFS volume is rebuilt
+     from its header and its files even when it has no files (any more) *)
+  if (match files with [] => true | _ => false end) && negb (supported_fv (v_guid h)) then Ok (h, buf) else
     if v_length h <? zlen buf then Err E_BUFBIG else
     match v_blocks h with [] => Err E_BLOCK0 | _ =>
     if v_dataoff h <? v_hdrlen h then Err E_BUFBIG else
+    if zlen buf <? v_dataoff h then Err E_BUFBIG else
     do hdr <- of_opt 202 (slice 0 (v_dataoff h) buf);
     do b1 <- place_files pol (if v_resizable h then None else Some (v_length h)) hdr (v_dataoff h) files;
     let newlen := zlen b1 in
@@ -570,8 +571,7 @@ Definition asm_vol (pol : Z) (ffs3 : bool) (h : volhdr) (buf : bytes) (files : l
                   (v_fvoffset h) (v_resizable h) ((len - align8 newlen) mod U64), b7)
       end
     end
-    end
-  end.
+    end.
 
 (* assemble state: erase polarity and the useFFS3 flag *)
 Definition ast := (Z * bool)%type.
